@@ -90,7 +90,14 @@ def handle (op : String) (args : Array String) : Option String :=
       some ("conflicted=" ++ sh st.conflicted ++ " ; unconflicted=" ++ sh st.unconflicted ++ " ; authDiff=" ++ sh st.authDiff
         ++ " ; control=" ++ sh st.control ++ " ; others=" ++ sh st.others ++ " ; controlOrder=" ++ sh st.controlOrder
         ++ " ; othersOrder=" ++ sh st.othersOrder ++ " ; result=" ++ sh st.result)
-  | "resolve_old", _ => some "skip:deprecated entry point (claimed for C11's order-independence and well-formedness only)"
+  | "resolve_old", ver :: setsS :: authS :: rejS :: shaS :: evArgs =>
+    -- the deprecated entry point `ResolveConflicts` over the flattened state sets (C11)
+    match parseArgs ver setsS authS rejS shaS evArgs with
+    | none => some "bad-op"
+    | some p =>
+      match resolveConflictsOld p.sha p.ver p.sets.flatten p.auth p.rejected with
+      | none => some "err"
+      | some ids => some (showIDs ids)
   | "resolve_props", ver :: tagged :: setsS :: authS :: rejS :: shaS :: evArgs =>
     match parseArgs ver setsS authS rejS shaS evArgs with
     | none => some "bad-op"
